@@ -33,12 +33,16 @@ def _bytes_case():
                      st.builds(power, st.integers(1, 58 ** 3), st.integers(1, 12), st.integers(0, 3)),
                      st.builds(near, st.just(58), st.integers(1, 170), st.integers(-3, 3)),
                      st.builds(near, st.just(256), st.integers(1, 120), st.integers(-3, 3)))
-    return st.fixed_dictionaries({"z": st.one_of(st.integers(0, 8), st.integers(0, 128)), "tail": tail})
+    long_tail = st.builds(lambda f, r: bytes([f]) + r, st.integers(1, 255), st.binary(min_size=128, max_size=1024))
+    return st.one_of(st.fixed_dictionaries({"z": st.one_of(st.integers(0, 8), st.integers(0, 128)), "tail": tail}),
+                     st.fixed_dictionaries({"z": st.one_of(st.integers(0, 8), st.integers(0, 128)), "tail": tail}),
+                     st.fixed_dictionaries({"z": st.one_of(st.integers(0, 8), st.integers(0, 300)),
+                                            "tail": st.one_of(tail, long_tail), "cap": st.just(2048)}))
 
 
 def _mk(case):
     b = b"\x00" * case["z"] + case["tail"]
-    return b[:128]
+    return b[:case.get("cap", 128)]
 
 
 def check_bytes(case, ctx):
@@ -297,7 +301,8 @@ def gen_cold(tier):
 def clauses():
     return [
         Clause("bytes", check_bytes,
-               "z leading zero bytes (0..128) + tail with non-zero first byte, total 1..128 bytes; encode "
+               "z leading zero bytes (0..128) + tail with non-zero first byte, total 1..128 bytes (one case in three: up to "
+               "2048 bytes); encode "
                "equals reference, leading '1' count == leading zero count, decode(encode(b)) == b; "
                "non-trivial = at least one leading zero byte",
                gen=lambda tier: _bytes_case(), nontrivial=nt_bytes,
